@@ -640,6 +640,7 @@ fn spawn(exe: &std::path::Path, dir: &PathBuf, mode: &str, backend: &str, sched:
             c.arg("-q")
                 .arg("--error-exitcode=99")
                 .arg("--exit-on-first-error=yes")
+                .arg("--vgdb=no")          // no gdbserver pipes under /tmp
                 .arg(format!("--log-file={}.%p", pfx))
                 .arg(exe);
             c
